@@ -1,5 +1,5 @@
 /-
-  JSON values as token trees (`Val`), "equal up to the order of object members and node-equal subtrees" (`ValSim`),
+  JSON values as token trees (`Val`), "equal up to the order of object members and node-equal subtrees" (`ValPerm`),
   and the projections of a rendered string edit.
 -/
 import GtModel.Proofs.RenderPlain
@@ -135,50 +135,91 @@ theorem T_text (x : Item) (h : x.litOK = true) : T x.text = x.val.toks := by
 /-! ### equality up to the order of object members -/
 
 mutual
-/-- the least equivalence relation on values that contains node equality (`Tree.eq`, graphtage's `==` on nodes),
-    is a congruence for lists (element-wise) and for key/value members (same key), and lets the members of an
-    object (`{`…`}`) be permuted -/
-inductive ValSim : Val → Val → Prop
-  | refl (v : Val) : ValSim v v
-  | eqv {a b : Tree} : a.eq b = true → ValSim (treeVal a) (treeVal b)
-  | symm {a b : Val} : ValSim a b → ValSim b a
-  | trans {a b c : Val} : ValSim a b → ValSim b c → ValSim a c
-  | pair {k : Str} {v w : Val} : ValSim v w → ValSim (.pair k v) (.pair k w)
-  | list {as bs : List Val} : ValSimL as bs → ValSim (.seq 91 93 as) (.seq 91 93 bs)
-  | map {as bs : List Val} : ValSimP as bs → ValSim (.seq 123 125 as) (.seq 123 125 bs)
+/-- `ValPerm v w`: the JSON values `v` and `w` are equal up to the ORDER of the members of objects, recursively:
+    the least equivalence relation that is a congruence for key/value members (same key), for lists (element-wise,
+    in order) and for objects (`{`…`}`: element-wise after a permutation of the members).  Nothing else is
+    identified: atoms (numbers, literals, strings) are related only to themselves (`ValPerm.toks_perm`: related
+    values have the same multiset of tokens; `ValPerm.atom_eq`). -/
+inductive ValPerm : Val → Val → Prop
+  | refl (v : Val) : ValPerm v v
+  | symm {a b : Val} : ValPerm a b → ValPerm b a
+  | trans {a b c : Val} : ValPerm a b → ValPerm b c → ValPerm a c
+  | pair {k : Str} {v w : Val} : ValPerm v w → ValPerm (.pair k v) (.pair k w)
+  | list {as bs : List Val} : ValPermL as bs → ValPerm (.seq 91 93 as) (.seq 91 93 bs)
+  | map {as bs : List Val} : ValPermP as bs → ValPerm (.seq 123 125 as) (.seq 123 125 bs)
 /-- element-wise -/
-inductive ValSimL : List Val → List Val → Prop
-  | nil : ValSimL [] []
-  | cons {a b : Val} {as bs : List Val} : ValSim a b → ValSimL as bs → ValSimL (a :: as) (b :: bs)
+inductive ValPermL : List Val → List Val → Prop
+  | nil : ValPermL [] []
+  | cons {a b : Val} {as bs : List Val} : ValPerm a b → ValPermL as bs → ValPermL (a :: as) (b :: bs)
 /-- element-wise after a permutation -/
-inductive ValSimP : List Val → List Val → Prop
-  | nil : ValSimP [] []
-  | cons {a b : Val} {as bs : List Val} : ValSim a b → ValSimP as bs → ValSimP (a :: as) (b :: bs)
-  | permL {as cs bs : List Val} : as.Perm cs → ValSimP cs bs → ValSimP as bs
-  | permR {as cs bs : List Val} : ValSimP as cs → cs.Perm bs → ValSimP as bs
-  | trans {as bs cs : List Val} : ValSimP as bs → ValSimP bs cs → ValSimP as cs
+inductive ValPermP : List Val → List Val → Prop
+  | nil : ValPermP [] []
+  | cons {a b : Val} {as bs : List Val} : ValPerm a b → ValPermP as bs → ValPermP (a :: as) (b :: bs)
+  | permL {as cs bs : List Val} : as.Perm cs → ValPermP cs bs → ValPermP as bs
+  | permR {as cs bs : List Val} : ValPermP as cs → cs.Perm bs → ValPermP as bs
+  | trans {as bs cs : List Val} : ValPermP as bs → ValPermP bs cs → ValPermP as cs
 end
 
-theorem ValSimL.refl' : ∀ l : List Val, ValSimL l l
+theorem ValPermL.refl' : ∀ l : List Val, ValPermL l l
   | [] => .nil
-  | v :: vs => .cons (.refl v) (ValSimL.refl' vs)
+  | v :: vs => .cons (.refl v) (ValPermL.refl' vs)
 
-theorem ValSimP.ofL {as bs : List Val} (h : ValSimL as bs) : ValSimP as bs := by
+theorem ValPermP.ofL {as bs : List Val} (h : ValPermL as bs) : ValPermP as bs := by
   induction as generalizing bs with
   | nil => cases h; exact .nil
   | cons a as ih => cases h with | cons h1 h2 => exact .cons h1 (ih h2)
 
-theorem ValSimL.append {a b c d : List Val} (h1 : ValSimL a b) (h2 : ValSimL c d) : ValSimL (a ++ c) (b ++ d) := by
+theorem ValPermL.append {a b c d : List Val} (h1 : ValPermL a b) (h2 : ValPermL c d) : ValPermL (a ++ c) (b ++ d) := by
   induction a generalizing b with
   | nil => cases h1; simpa using h2
   | cons x a ih => cases h1 with | cons hx ha => exact .cons hx (ih ha)
 
-theorem ValSimL.trans' {a b c : List Val} (h1 : ValSimL a b) (h2 : ValSimL b c) : ValSimL a c := by
+theorem ValPermL.trans' {a b c : List Val} (h1 : ValPermL a b) (h2 : ValPermL b c) : ValPermL a c := by
   induction a generalizing b c with
   | nil => cases h1; exact h2
   | cons x a ih =>
     cases h1 with
     | cons hx ha => cases h2 with | cons hy hb => exact .cons (.trans hx hy) (ih ha hb)
+
+/-! ### what `ValPerm` cannot identify -/
+
+mutual
+/-- related values have the same multiset of tokens -/
+theorem ValPerm.toks_perm : ∀ {v w : Val}, ValPerm v w → v.toks.Perm w.toks
+  | _, _, .refl _ => List.Perm.refl _
+  | _, _, .symm h => (ValPerm.toks_perm h).symm
+  | _, _, .trans h1 h2 => (ValPerm.toks_perm h1).trans (ValPerm.toks_perm h2)
+  | _, _, .pair h => by simp only [Val.toks]; exact ((ValPerm.toks_perm h).cons _).cons _
+  | _, _, .list h => by simp only [Val.toks]; exact ((ValPermL.toks_perm h).append_right _).cons _
+  | _, _, .map h => by simp only [Val.toks]; exact ((ValPermP.toks_perm h).append_right _).cons _
+theorem ValPermL.toks_perm : ∀ {as bs : List Val}, ValPermL as bs → (toksL as).Perm (toksL bs)
+  | _, _, .nil => List.Perm.refl _
+  | _, _, .cons h hs => by simp only [toksL]; exact (ValPerm.toks_perm h).append (ValPermL.toks_perm hs)
+theorem ValPermP.toks_perm : ∀ {as bs : List Val}, ValPermP as bs → (toksL as).Perm (toksL bs)
+  | _, _, .nil => List.Perm.refl _
+  | _, _, .cons h hs => by simp only [toksL]; exact (ValPerm.toks_perm h).append (ValPermP.toks_perm hs)
+  | _, _, .permL p h => by
+      have := ValPermP.toks_perm h
+      rw [toksL_eq] at this ⊢
+      exact (p.flatMap_right _).trans this
+  | _, _, .permR h p => by
+      have := ValPermP.toks_perm h
+      rw [toksL_eq, toksL_eq] at this ⊢
+      exact this.trans (p.flatMap_right _)
+  | _, _, .trans h1 h2 => (ValPermP.toks_perm h1).trans (ValPermP.toks_perm h2)
+end
+
+/-- an atom (number, literal, string) is related to itself only -/
+theorem ValPerm.atom_eq : ∀ {v w : Val}, ValPerm v w →
+    (∀ ts, v = .atom ts → w = .atom ts) ∧ (∀ ts, w = .atom ts → v = .atom ts)
+  | _, _, .refl _ => ⟨fun _ h => h, fun _ h => h⟩
+  | _, _, .symm h => ⟨(ValPerm.atom_eq h).2, (ValPerm.atom_eq h).1⟩
+  | _, _, .trans h1 h2 =>
+      ⟨fun ts h => (ValPerm.atom_eq h2).1 ts ((ValPerm.atom_eq h1).1 ts h),
+       fun ts h => (ValPerm.atom_eq h1).2 ts ((ValPerm.atom_eq h2).2 ts h)⟩
+  | _, _, .pair _ => ⟨fun _ h => (by cases h), fun _ h => (by cases h)⟩
+  | _, _, .list _ => ⟨fun _ h => (by cases h), fun _ h => (by cases h)⟩
+  | _, _, .map _ => ⟨fun _ h => (by cases h), fun _ h => (by cases h)⟩
 
 /-! ### strings -/
 
